@@ -207,3 +207,99 @@ T('c16i_two_save_sites', ['C16'],
 B('c16i_two_save_sites_one_missing', ['C16'], 'R16.d',
   (CK, _SAVE, "        if '_expires' not in cookie:\n            return response\n"
               "        save_cookie_kwargs['expires'] = cookie['_expires']\n        cookie.save_cookie(response, **save_cookie_kwargs)\n"))
+
+# ---------------------------------------------------------------- R16.e: what one request learns stays in that request's objects
+_EXPIRY_ATTR = '        self.expiry = expiry\n'
+_BUILT_ONCE = (_EXPIRY_ATTR + "        self._save_cookie_kwargs = dict(key=self.cookie_name, domain=self.domain, path=self.path,\n"
+               "                                        secure=self.secure, httponly=self.http_only)\n")
+T('c16i_options_built_once_copied', ['C16'],
+  (CK, _EXPIRY_ATTR, _BUILT_ONCE),
+  (CK, _KWARGS, "        save_cookie_kwargs = dict(self._save_cookie_kwargs)\n"))
+T('c16i_options_built_once_copy_method', ['C16'],
+  (CK, _EXPIRY_ATTR, _EXPIRY_ATTR + "        self._save_options = {'key': cookie_name, 'domain': domain, 'path': path}\n"
+                                    "        self._save_options.update(secure=secure, httponly=http_only)\n"),
+  (CK, _KWARGS, "        save_cookie_kwargs = self._save_options.copy()\n"))
+T('c16i_options_built_once_read_only', ['C16'],
+  (CK, _EXPIRY_ATTR, _BUILT_ONCE),
+  (CK, _KWARGS, ''),
+  (CK, _SAVE, "        if '_expires' in cookie:\n            cookie.save_cookie(response, expires=cookie['_expires'], **self._save_cookie_kwargs)\n"
+              "        else:\n            cookie.save_cookie(response, **self._save_cookie_kwargs)\n"))
+T('c16i_options_cached_lazily', ['C16'],
+  (CK, _EXPIRY_ATTR, _EXPIRY_ATTR + "        self._options = None\n"),
+  (CK, _KWARGS, "        if self._options is None:\n"
+                "            self._options = dict(domain=self.domain, path=self.path, secure=self.secure, httponly=self.http_only)\n"
+                "        save_cookie_kwargs = dict(self._options, key=self.cookie_name)\n"))
+T('c16i_options_merged_display', ['C16'],
+  (CK, _EXPIRY_ATTR, _BUILT_ONCE),
+  (CK, _KWARGS, "        shared = self._save_cookie_kwargs\n        save_cookie_kwargs = {**shared}\n"))
+B('c16i_options_alias_item', ['C16'], 'R16.e',
+  (CK, _EXPIRY_ATTR, _BUILT_ONCE),
+  (CK, _KWARGS, "        save_cookie_kwargs = self._save_cookie_kwargs\n"))
+B('c16i_options_alias_update', ['C16'], 'R16.e',
+  (CK, _EXPIRY_ATTR, _BUILT_ONCE),
+  (CK, _KWARGS, ''),
+  (CK, _SAVE, "        options = self._save_cookie_kwargs\n        if '_expires' in cookie:\n            options.update(expires=cookie['_expires'])\n"
+              "        cookie.save_cookie(response, **options)\n"))
+B('c16i_options_attribute_written', ['C16'], 'R16.e',
+  (CK, _EXPIRY_ATTR, _BUILT_ONCE),
+  (CK, _KWARGS, ''),
+  (CK, _SAVE, "        self._save_cookie_kwargs['expires'] = cookie.get('_expires')\n"
+              "        cookie.save_cookie(response, **self._save_cookie_kwargs)\n"))
+B('c16i_options_module_level', ['C16'], 'R16.e',
+  (CK, 'NOW = \'now\'\n', 'NOW = \'now\'\n_SAVE_OPTIONS = {}\n'),
+  (CK, _KWARGS, "        save_cookie_kwargs = _SAVE_OPTIONS\n        save_cookie_kwargs.update(key=self.cookie_name, domain=self.domain, path=self.path,\n"
+                "                                  secure=self.secure, httponly=self.http_only)\n"))
+B('c16i_options_class_level', ['C16'], 'R16.e',
+  (CK, '    _cookie_type = JSONCookie\n', '    _cookie_type = JSONCookie\n    _save_defaults = {}\n'),
+  (CK, _KWARGS, "        save_cookie_kwargs = type(self)._save_defaults\n        save_cookie_kwargs.update(key=self.cookie_name, domain=self.domain, path=self.path,\n"
+                "                                  secure=self.secure, httponly=self.http_only)\n"))
+B('c16i_cookie_kept_on_middleware', ['C16'], 'R16.e',
+  (CK, '        response = next(**{self.arg_name: cookie})\n',
+       '        self.current = cookie\n        response = next(**{self.arg_name: cookie})\n'))
+B('c16i_expiry_remembered', ['C16'], 'R16.e',
+  (CK, _EXPIRY_ATTR, _EXPIRY_ATTR + "        self._last_expires = {}\n"),
+  (CK, _SAVE, "        if '_expires' in cookie:\n            self._last_expires.setdefault('expires', cookie['_expires'])\n"
+              "        save_cookie_kwargs.update(self._last_expires)\n        cookie.save_cookie(response, **save_cookie_kwargs)\n"))
+B('c16i_options_alias_in_public_helper', ['C16'], 'R16.e',
+  (CK, _EXPIRY_ATTR, _BUILT_ONCE),
+  (CK, _KWARGS, ''),
+  (CK, _SAVE, "        cookie.save_cookie(response, **self.save_options(cookie))\n"),
+  (CK, '    def _get_random(self):\n',
+       "    def save_options(self, cookie):\n        options = self._save_cookie_kwargs\n        if '_expires' in cookie:\n"
+       "            options['expires'] = cookie['_expires']\n        return options\n\n    def _get_random(self):\n"))
+
+# ---------------------------------------------------------------- R16.b: quote() is total on what unquote() can return
+_DUMPS = "        ret = cls.serialization_method.dumps(value)\n"
+_ENCODE = "        ret = ret.encode('utf8')  # b64encode wants values as bytes on py3\n"
+B('c16i_quote_raw_unicode', ['C16'], 'R16.b',
+  (CK, _DUMPS, "        ret = cls.serialization_method.dumps(value, ensure_ascii=False)\n"))
+B('c16i_quote_raw_unicode_options_constant', ['C16'], 'R16.b',
+  (CK, 'NOW = \'now\'\n', 'NOW = \'now\'\n_COMPACT = dict(ensure_ascii=False, separators=(\',\', \':\'))\n'),
+  (CK, _DUMPS, "        ret = cls.serialization_method.dumps(value, **_COMPACT)\n"))
+B('c16i_quote_raw_unicode_one_expression', ['C16'], 'R16.b',
+  (CK, _DUMPS + _ENCODE, "        escape = False\n        ret = bytes(json.dumps(value, ensure_ascii=escape, sort_keys=True), 'utf-8', 'strict')\n"))
+B('c16i_quote_raw_unicode_surrogateescape', ['C16'], 'R16.b',
+  (CK, _DUMPS + _ENCODE, "        ret = cls.serialization_method.dumps(value, ensure_ascii=False).strip()\n"
+                         "        ret = ret.encode('utf8', errors='surrogateescape')\n"))
+B('c16i_quote_size_limit_raises', ['C16'], 'R16.b',
+  (CK, "        return ret\n\n    @classmethod\n    def unquote",
+       "        if len(ret) > 4000:\n            raise ValueError('cookie too large')\n        return ret\n\n    @classmethod\n    def unquote"))
+T('c16i_quote_explicit_escaping', ['C16'],
+  (CK, _DUMPS, "        ret = cls.serialization_method.dumps(value, ensure_ascii=True, separators=(',', ':'))\n"))
+T('c16i_quote_raw_unicode_surrogatepass', ['C16'],
+  (CK, _DUMPS + _ENCODE, "        ret = cls.serialization_method.dumps(value, ensure_ascii=False)\n        ret = ret.encode('utf8', 'surrogatepass')\n"),
+  (CK, "value.decode('utf8')", "value.decode('utf8', 'surrogatepass')"))
+T('c16i_quote_raw_unicode_with_fallback', ['C16'],
+  (CK, _DUMPS + _ENCODE, "        try:\n            ret = cls.serialization_method.dumps(value, ensure_ascii=False).encode('utf8')\n"
+                         "        except UnicodeEncodeError:\n            ret = cls.serialization_method.dumps(value).encode('utf8')\n"))
+T('c16i_quote_options_constant', ['C16'],
+  (CK, 'NOW = \'now\'\n', 'NOW = \'now\'\n_COMPACT = dict(separators=(\',\', \':\'), sort_keys=True)\n'),
+  (CK, _DUMPS, "        ret = cls.serialization_method.dumps(value, **_COMPACT)\n"))
+B('c16i_options_mutable_default', ['C16'], 'R16.e',
+  (CK, '    def request(self, next, request):\n', '    def request(self, next, request, _options={}):\n'),
+  (CK, _KWARGS, "        save_cookie_kwargs = _options\n        save_cookie_kwargs.update(key=self.cookie_name, domain=self.domain, path=self.path,\n"
+                "                                  secure=self.secure, httponly=self.http_only)\n"))
+T('c16i_options_built_once_copy_module', ['C16'],
+  (CK, 'import base64\n', 'import base64\nimport copy\n'),
+  (CK, _EXPIRY_ATTR, _BUILT_ONCE),
+  (CK, _KWARGS, "        template = self._save_cookie_kwargs\n        save_cookie_kwargs = copy.copy(template)\n"))
